@@ -75,42 +75,20 @@ Qed.
 (* LangDataLoader                                                                       *)
 (* ------------------------------------------------------------------------------------ *)
 
-(* with utterance ids delivered the loader buckets by reference length: all loader theorems apply *)
-Theorem lang_loader_keeps_ids : forall W ds p order,
-  lang_loader_batches false W ds p order = loader_batches (map (fun x => length (fst x)) ds) p order.
-Proof.
-  intros W ds p order. unfold lang_loader_batches. destruct (Nat.ltb 1 (p_nb p)); [|reflexivity].
-  cbn [lang_item_len].
-  assert (H : all_some (map (fun x : list row * nat => Some (length (fst x))) ds)
-              = Some (map (fun x => length (fst x)) ds)).
-  { induction ds as [|x t IH]; [reflexivity|]. cbn [map all_some]. now rewrite IH. }
-  now rewrite H.
-Qed.
+(* the LangDataLoader buckets by reference length, with or without utterance ids: every loader
+   theorem applies to it with lens = the reference lengths *)
+Theorem lang_loader_by_ref_length : forall ds p order,
+  lang_loader_batches ds p order = loader_batches (map (fun x => length (fst x)) ds) p order.
+Proof. reflexivity. Qed.
 
-(* F11, token-only references: with suppress_uttids (the default) and more than one bucket the
-   constructor always raises IndexError *)
-Theorem lang_loader_suppress_raises : forall ds p order, 1 < p_nb p ->
-  lang_loader_batches true 1 ds p order = Err IndexError.
+Theorem lang_loader_no_mixing : forall (ds : list (list row * nat)) p order out lb b x y,
+  1 < p_nb p -> length_bounds (map (fun r => length (fst r)) ds) (p_nb p) = Ok lb ->
+  lang_loader_batches ds p order = Ok out -> In b out -> In x b -> In y b ->
+  same_class lb (length (fst (nth x ds ([], 0)))) (length (fst (nth y ds ([], 0)))).
 Proof.
-  intros ds p order Hnb. unfold lang_loader_batches.
-  apply Nat.ltb_lt in Hnb. rewrite Hnb. destruct ds as [|[r i] t].
-  - cbn [map all_some]. unfold loader_batches, loader_init. rewrite Hnb.
-    unfold bucket_params. now rewrite length_bounds_empty.
-  - rewrite all_some_none; [reflexivity|]. cbn [map fst]. left. unfold lang_item_len. destruct r; reflexivity.
-Qed.
-
-(* F11, references with segment columns: every "length" is 3, so one bucket mixes all lengths *)
-Theorem lang_loader_suppress_mixes_refuted :
-  exists (ds : list (list row * nat)) p order out lb b x y,
-    lang_loader_batches true 3 ds p order = Ok out /\
-    length_bounds (map (fun r => length (fst r)) ds) (p_nb p) = Ok lb /\
-    In b out /\ In x b /\ In y b /\
-    ~ same_class lb (length (fst (nth x ds ([], 0)))) (length (fst (nth y ds ([], 0)))).
-Proof.
-  set (r := fun n => repeat [1; 0; 1]%Z n).
-  exists [(r 3, 0); (r 1, 1); (r 4, 2); (r 1, 3)], (mkLP 2 2 false false), [0; 1; 2; 3],
-         [[0; 1]; [2; 3]], [1; 4], [0; 1], 0, 1.
-  split; [vm_compute; reflexivity|]. split; [vm_compute; reflexivity|].
-  split; [now left|]. split; [now left|]. split; [right; now left|].
-  intros H. specialize (H 1 (or_introl eq_refl)). cbn in H. lia.
+  intros ds p order out lb b x y Hnb Hlb H Hb Hx Hy.
+  pose proof (loader_no_mixing _ _ _ _ _ _ _ _ Hnb Hlb H Hb Hx Hy) as Hs.
+  pose proof (map_nth (fun r : list row * nat => length (fst r)) ds ([], 0) x) as Ex.
+  pose proof (map_nth (fun r : list row * nat => length (fst r)) ds ([], 0) y) as Ey.
+  cbn [fst length] in Ex, Ey. now rewrite Ex, Ey in Hs.
 Qed.
